@@ -320,3 +320,11 @@ add("C35", "LOS stride uses the wrong extent", "nifty/cl/library/los_response.py
 add("C30", "uniform shortcut for every unit-width interval", SDP, "        and a_min == 0.0\n        and a_max == 1.0\n", "        and a_max - a_min == 1.0\n", "R30.1")
 add("C30", "inverse gamma prior class drops loc", "nifty/re/prior.py", "call = invgamma_prior(self.a, self.scale, self.loc, self.step)", "call = invgamma_prior(self.a, self.scale, step=self.step)", "R30.1")
 VARIANTS = V
+
+add("C28", "matern power kind without the square root", "nifty/re/correlated_field.py", '        if self.kind.lower() == "power":\n            spectrum = jnp.sqrt(spectrum)\n', "", "R28.2")
+add("C28", "fourier mode lengths wrap with the first axis", "nifty/re/correlated_field.py", "tmp = np.minimum(tmp, shape[i] - tmp) * mspc_distances[i]", "tmp = np.minimum(tmp, shape[0] - tmp) * mspc_distances[i]", "R28.4")
+add("C28", "classic total fluctuation drops mixed terms", "nifty/cl/library/correlated_fields.py",
+    "        q = 1.\n        for a in self._a:\n            fl = a.fluctuation_amplitude/self.azm\n            q = q*(1 + fl**2)\n        return (q - 1).sqrt()*self.azm",
+    "        q = 0.\n        for a in self._a:\n            fl = a.fluctuation_amplitude/self.azm\n            q = q + fl**2\n        return q.sqrt()*self.azm", "R28.3")
+add("C28", "classic slice fluctuation treats own space like the others", "nifty/cl/library/correlated_fields.py", "            if j == space:\n                q = q*fl**2\n", "            if j == space:\n                q = q*(1 + fl**2)\n", "R28.3")
+VARIANTS = V
